@@ -120,9 +120,17 @@ CMD_MOD = ['contents(self.io.sent)', 'contents(self.trace)', 'any(Reply).code', 
 EXT_MOD = ['self.extensions.state']
 
 
+# C07 "a 221/421 reply ends the session": a command handler that has sent such a reply does not return normally
+# (it leaves through StopIteration, see STOP) -- found missing by the mutation campaign (deleting a _check_close_code
+# call survived)
+NOCLOSE = ('implies(len(self.io.sent) > old(len(self.io.sent)), '
+           'not (self.io.sent[len(self.io.sent) - 1] == "221" or self.io.sent[len(self.io.sent) - 1] == "421"))')
+
+
 def cmd(name, params=None, **kw):
     p = {'self': 'Server'}
     p.update(params or {'arg': 'Opt[Bytes]'})
+    kw['ensures'] = list(kw.get('ensures', [])) + [NOCLOSE]
     return contract('Server._command_' + name, module=M, params=p, **kw)
 
 
@@ -270,8 +278,11 @@ contract('Server._get_message_data', module=M, props=['C07', 'C14', 'C09'], scop
              # the message-received callback, then exactly one final reply, then the transaction is forgotten --
              # after every completed OR rejected message
              ONECB + '"HAVE_DATA"', TRACE_PREFIX, SENT1, PREFIX,
-             'self.have_mailfrom is None and self.have_rcptto is None', TXN_SAME],
-         raises={'ConnectionLost': [NOCB, 'len(self.io.sent) == old(len(self.io.sent))'],
+             'self.have_mailfrom is None and self.have_rcptto is None', TXN_SAME, NOCLOSE],
+         # a 221/421 answer to the message ends the session like any other (the transaction is forgotten first)
+         raises={'StopIteration': [SENT1, LAST + ' == "221" or ' + LAST + ' == "421"', ONECB + '"HAVE_DATA"',
+                                   'self.have_mailfrom is None and self.have_rcptto is None', PREFIX, TRACE_PREFIX],
+                 'ConnectionLost': [NOCB, 'len(self.io.sent) == old(len(self.io.sent))'],
                  'Timeout': [NOCB, 'len(self.io.sent) == old(len(self.io.sent))'], 'OSError': [], 'AssertionError': []},
          modifies=CMD_MOD + ['self.have_mailfrom', 'self.have_rcptto', 'self.io.recv_buffer', 'fresh'])
 
@@ -289,7 +300,14 @@ cmd('DATA', props=['C07'],
              '   and self.have_mailfrom is None and self.have_rcptto is None)',
              'implies(len(self.trace) == old(len(self.trace)) + 1, ' + SENT1 + ' and not (' + LAST + ' == "354"))',
              'len(self.trace) <= old(len(self.trace)) + 2', TXN_SAME],
-    raises={'StopIteration': [SENT1, ONECB + '"DATA"'],
+    # the session ends on a 221/421 answer to DATA itself (one reply, DATA callback only) or to the message (354, then
+    # the final reply; both callbacks, transaction forgotten)
+    raises={'StopIteration': [LAST + ' == "221" or ' + LAST + ' == "421"',
+                              '(' + SENT1 + ' and ' + ONECB + '"DATA") or '
+                              '(len(self.io.sent) == old(len(self.io.sent)) + 2 and self.io.sent[old(len(self.io.sent))] == "354" '
+                              ' and len(self.trace) == old(len(self.trace)) + 2 and self.trace[old(len(self.trace))] == "DATA" '
+                              ' and self.trace[old(len(self.trace)) + 1] == "HAVE_DATA" '
+                              ' and self.have_mailfrom is None and self.have_rcptto is None)'],
             'ConnectionLost': [], 'Timeout': [], 'OSError': [], 'AssertionError': []},
     modifies=CMD_MOD + ['self.have_mailfrom', 'self.have_rcptto', 'self.io.recv_buffer', 'fresh'])
 
